@@ -11,9 +11,9 @@ def seeds_table():
     rows = ['**%d seeded changes are kept; %d were refuted by a named obligation as the contracts stood; %d needed a strengthening first '
             '(of these, %d were missed outright or left the check undecided at first; %d are / were caught by a labelled bounded stand-in rather than a proof obligation). '
             'Each of the %d made its check exit 1 when it was last run: the 111 of rounds a-f all together by `tools/rerun_seeds.sh` at commit 1a49892, the 23 of round g '
-            'one by one with `tools/try_seed_par.sh` at the commit that stores them.  After the engine repairs of round g, 57 of the 111 older ones (C01-C05, C11-C13, C16-C19; cheapest checks first) were re-run with '
-            '`tools/rerun_seed_one.sh`: 56 exit 1, one had gone to exit 3 '
-            '(`C13-headers-dict-shared-between-parts`; the lazy content-unknown marking of 9.1 restored exit 1); the rest of that regression did not fit into the session.**' % (len(metas), len(metas) - len(noted), len(noted), len(missed), len(bounded), len(metas)), '',
+            'one by one with `tools/try_seed_par.sh` at the commit that stores them.  After the engine repairs of round g the 111 older ones were re-run with `tools/rerun_seed_one.sh` (four at a time): 109 finished within the session, '
+            '108 of them at exit 1; one had gone to exit 3 (`C13-headers-dict-shared-between-parts`; the lazy content-unknown marking of 9.1 restored exit 1, re-run: exit 1).  '
+            'Two were still running when the session ended (`C06-asgi-forwarded-host-fallback-drops-port`, `C10-joiner-malformed-escape-drops-tail`).**' % (len(metas), len(metas) - len(noted), len(noted), len(missed), len(bounded), len(metas)), '',
             '| seed | property | what it needs to manifest | refuted obligation(s) | note |', '|---|---|---|---|---|']
     for d in sorted(glob.glob(os.path.join(ROOT, 'seeded', '*'))):
         m = json.load(open(os.path.join(d, 'meta.json')))
